@@ -74,11 +74,11 @@ CHECKS["C15"] = dict(
 
 _c07_windows = [(90000, 0), (90000, 999999000), (90000, 47721858000000), (48000, 3600000000000), (8000, 536870911000000)]
 CHECKS["C07"] = dict(
-    jobs=[dict(pkg="pkg/report", entry="HC07Step")] +
+    jobs=[dict(pkg="pkg/report", entry="HC07Step"), dict(pkg="pkg/report", entry="HC07Interceptor", require_covers=["tick reported"], no_native=True)] +
          [dict(pkg="pkg/report", entry="HC07Report", params=dict(rate=r, elbase=b, elbits=20)) for (r, b) in _c07_windows],
-    bounds=dict(quick="processRTP: one step from ANY stream state (counts, reference, sequence) with any header, payload length 0..1460, both use-latest-packet settings (inductive: any history). Report formula: elapsed time = window base + [0,2^20) ns for 5 (clock rate, base) windows incl. the 2^32-tick wrap at 90 kHz, compared with the integer reference floor(elapsed*rate/1e9) within one tick",
+    bounds=dict(quick="processRTP: one step from ANY stream state (counts, reference, sequence) with any header, payload length 0..1460, both use-latest-packet settings (inductive: any history). Report formula: elapsed time = window base + [0,2^20) ns for 5 (clock rate, base) windows incl. the 2^32-tick wrap at 90 kHz, compared with the integer reference floor(elapsed*rate/1e9) within one tick. Interceptor level: two local streams (90 kHz / 48 kHz), two rounds of two writes on symbolically chosen streams with symbolic payload lengths and timestamps, a tick after each round: one SR per stream per tick with that stream's own packet/octet counts and the report instant as NTP time",
                 thorough="same"),
-    outside=["elapsed times outside the listed windows (float pipeline is decided per 2^20-ns window by cvc5)", "sender interceptor tick loop and multi-stream wiring", "report before any packet (zero reference time)"],
+    outside=["elapsed times outside the listed windows (float pipeline is decided per 2^20-ns window by cvc5)", "sender interceptor beyond two streams x two rounds of two writes and two ticks (harness-controlled clock; RTP-time extrapolation is checked on the stream object only)", "report before any packet (zero reference time)"],
     assumptions=["float64->uint32 conversion modelled as go1.24/amd64 executes it (cvttsd2si, low 32 bits)", "time.Time modelled as 96-bit nanosecond count"],
 )
 
@@ -87,12 +87,13 @@ CHECKS["C06"] = dict(
           for (lb, db) in ((4294967000, 0), (0, 0), (2147483000, 0), (100000, 4294960000), (5000, 2147481000))] + [
         dict(pkg="pkg/report", entry="HC06Loss", params=dict(packets=3, fwd=3, back=3), thorough=dict(params=dict(packets=3, fwd=4, back=4), flags=["-qtimeout", "300000"], timeout=3400)),
         dict(pkg="pkg/report", entry="HC06LossStep", params=dict(maxjump=6), require_covers=["jump across the sequence wrap"]),
+        dict(pkg="pkg/report", entry="HC06Interceptor", require_covers=["lossy stream reported"], no_native=True),
         dict(pkg="pkg/report", entry="HC06SR", params=dict(elbase=0)),
         dict(pkg="pkg/report", entry="HC06SR", params=dict(elbase=65535999000000)),
     ],
     bounds=dict(quick="jitter: one update from an arbitrary state (jitter any multiple of 1/16 < 65536, elapsed < 2^20 ns) for 5 windows of (last timestamp, timestamp step) of 2^12 x 2^12 values incl. both directions of the 2^32 wrap and the 2^31 half-range; loss step: from an ARBITRARY 64-packet bitmap right after a report, one forward jump of 1..6 from any sequence number (wrap included); loss accounting: 3 packets (jumps +-3, any base incl. sequence wrap), report after a symbolic prefix and at the end, bitmap of 64 packets (size=1 word, same code as 128 words); LSR/DLSR: two SRs, elapsed window [0,2^20) ns at base 0 and at the 2^32-unit wrap of DLSR",
                 thorough="3 packets, jumps +-4 (4 packets: solver unknown at 60 s)"),
-    outside=["production history size 8192 packets (struct built with 1 word)", "more than 4 packets per history / jumps >4", "packets arriving for an interval that was already reported", "receiver interceptor tick loop"],
+    outside=["production history size 8192 packets (struct built with 1 word)", "more than 4 packets per history / jumps >4", "packets arriving for an interval that was already reported", "receiver interceptor beyond: two remote streams (one with a case-split gap of 0..2 lost), a sender report for one of them through the RTCP reader, one tick (production bitmap size 8192)"],
     assumptions=["float64->uintN conversions as go1.24/amd64", "FP queries decided by cvc5/z3 portfolio, one-shot"],
 )
 
